@@ -736,6 +736,136 @@ class Case:
                     killed=[[j, v[0], v[1]] for j, v in sorted(killed.items())],
                     live=[[ref, j] for ref, j in wk.items()])
 
+    def run_limit_closed(self, spec):
+        """the closed system WITH HARD TIME LIMITS of coq/Model/PoolLimit.v: as run_closed, plus: every
+        call carries its own hard limit (spec['lims'][k], None = the pool default), scan (one pass of
+        the real timeout handler; the fake processes it signals are dead at once and leave the live
+        workers; called scan_racy when it is not `clean`: it would signal a dead worker, two overdue
+        jobs of one worker, or a worker that has gone on to another job), tick (supervision pass,
+        taken only when the dead workers' messages have been drained from the result pipe), advance.
+        Returns a dict (sched, events, obs, maximal, racy, marks)."""
+        import random
+        rng = random.Random(spec['seed'])
+        p = self.pool
+        lims = list(spec['lims'])
+        todo = list(lims)
+        allow_racy = spec.get('racy', False)
+        idle_p = spec.get('idle_prob', 0.04)
+        bad = spec.get('bad', ())
+        taskq, inq, outq = [], [], []            # outq: (parent event, sender ref)
+        wk = dict((w.ref, None) for w in p._pool)
+        sched, evs, out = [], [], []
+        marks = []                               # per scan: [index of its event, clean?, [[job, owner ref]...] it should fail]
+        limit = spec.get('stop_after', 400)
+        maximal = False
+
+        def due_pairs():
+            now = CLOCK[0]
+            res = []
+            if p._timeout_handler is None:
+                return res
+            for k, j in enumerate(self.jobs):
+                if j._job in p._cache and not j.ready() and j._time_accepted:
+                    h = j._timeout if j._timeout is not None else p.timeout
+                    if h and j._time_accepted + h <= now:
+                        res.append([k, self.pidref(j._worker_pid)])
+            return res
+
+        while True:
+            dead = set(w.ref for w in p._pool if w.exitcode is not None)
+            drained = not any(snd in dead for _, snd in outq)
+            now = CLOCK[0]
+            dp = due_pairs()
+            owners = [o for _, o in dp]
+            clean = len(set(owners)) == len(owners) and all(
+                o in wk and (wk[o] is None or wk[o] == k) for k, o in dp)
+            pending = any((not j.ready()) and j._time_accepted and
+                          (j._timeout if j._timeout is not None else p.timeout) and
+                          now < j._time_accepted + (j._timeout if j._timeout is not None else p.timeout)
+                          for j in self.jobs)
+            marked = [j for j in list(p._cache.values()) if not j.ready() and j._worker_lost]
+            due_lost = [j for j in marked if now - j._worker_lost[0] > j._lost_worker_timeout]
+            useful_tick = bool(dead) or bool(due_lost) or len(p._pool) < p._processes
+            useful_adv = pending or len(due_lost) < len(marked)
+            useful_scan = bool(dp)
+            en = []
+            if todo and not (p.putlocks and p._putlock is not None and p._putlock._value == 0):
+                en.append(['submit'])
+            if taskq:
+                en.append(['put'])
+            for ref, j in wk.items():
+                if j is None and inq:
+                    en.append(['take', ref])
+                if j is not None:
+                    en.append(['finish', ref])
+            if outq:
+                en.append(['recv'])
+            unresolved = any(not j.ready() for j in self.jobs)
+            work_left = bool(en) or unresolved or bool(dead)
+            progress = bool(en)
+            lingers = rng.random() < 0.4
+            scan = ['scan', lingers] if clean else (['scan_racy', lingers] if allow_racy else None)
+            if scan is not None and (useful_scan and rng.random() < spec.get('scan_prob', 0.7) or rng.random() < idle_p):
+                en.append(scan)
+                if useful_scan:
+                    progress = True
+            if drained and (useful_tick or rng.random() < idle_p):
+                en.append(['tick'])
+                if useful_tick:
+                    progress = True
+            if (useful_adv and rng.random() < spec.get('adv_prob', 0.5)) or rng.random() < idle_p:
+                en.append(['advance', rng.choice([1, 1, 2, 3, 5, 11])])
+                if useful_adv:
+                    progress = True
+            if useful_adv or (useful_scan and scan is not None):
+                progress = True        # not offered this round by chance: not the end
+            if not progress or len(sched) >= limit:
+                maximal = not work_left
+                break
+            if not en:
+                continue
+            st = rng.choice(en)
+            sched.append(st)
+            ev = None
+            if st[0] == 'submit':
+                h = todo.pop(0)
+                taskq.append(len(self.jobs))
+                ev = ['apply', None, h, None, None]
+            elif st[0] == 'put':
+                inq.append(taskq.pop(0))
+            elif st[0] == 'take':
+                j = inq.pop(0)
+                wk[st[1]] = j
+                outq.append((['ack', j, None, st[1]], st[1]))
+            elif st[0] == 'finish':
+                j = wk[st[1]]
+                wk[st[1]] = None
+                outq.append((['ready', j, None, j not in bad, j], st[1]))
+            elif st[0] == 'recv':
+                ev = outq.pop(0)[0]
+            elif st[0] in ('scan', 'scan_racy'):
+                marks.append([len(evs), st[0] == 'scan', dp, sorted(wk), now])
+                ev = ['scan', st[1]]
+            elif st[0] == 'tick':
+                ev = ['tick']
+            else:
+                ev = ['advance', st[1]]
+            if ev is not None:
+                evs.append(ev)
+                out.extend(self.run([ev]))
+                if out[-1]['exc'] == 'Hang':
+                    break
+                if ev[0] == 'scan':
+                    for ref in [r for r in wk if FakeProcess.all[r]._exit is not None]:
+                        del wk[ref]                    # signalled: dead at once, whatever it was doing
+                if ev[0] == 'tick':
+                    for w in p._pool:
+                        if w.ref not in wk and w.exitcode is None:
+                            wk[w.ref] = None
+        return dict(sched=sched, events=evs, obs=out, maximal=maximal, marks=marks,
+                    racy=any(st[0] == 'scan_racy' for st in sched),
+                    live=[[ref, j] for ref, j in wk.items()])
+
     def run(self, events):
         out = []
         events = list(events)
@@ -806,6 +936,8 @@ def main():
             res.append(dict(events=evs, obs=obs, sched=sched, maximal=maximal))
         elif 'crash' in c:
             res.append(case.run_crash_closed(c['crash']))
+        elif 'limit' in c:
+            res.append(case.run_limit_closed(c['limit']))
         elif 'gen' in c:
             evs, obs = case.run_gen(c['gen'])
             res.append(dict(events=evs, obs=obs))
